@@ -11,6 +11,9 @@ def run(ctx, rep):
                     "fasteners.InterProcessReaderWriterLock / fcntl semantics are ASSUMED (writer excludes all, readers exclude writers): "
                     "the transition system encodes them, the multi-process runs validate them"]
     rows, refusal = c04_skel.gen(ctx)
+    for ex, ov, ro, evs in rows.pop("ctor"):
+        rep.case(key=f"ctor:{ex}:{ov}:{ro}")
+        rep.count("ctor:" + ("creates" if "create" in evs else "opens-existing"))
     for kind in rows:
         for S, tr, exn, free, closed in rows[kind]:
             rep.case(key=f"{kind}:{sorted(S)}" if S else None, sample={"kind": kind, "faults": S, "trace": tr, "exn": exn} if len(S) == 2 and len(rep.samples) < 3 else None)
@@ -61,6 +64,33 @@ def run(ctx, rep):
                 rep.violate("C04:stepped:differs-from-lock-semantics",
                             f"{len(bad2)} stepped schedules end differently from the reader/writer-lock transition system; first: {labels} -> {outs}",
                             {"kind": "stepped", "labels": labels, "outcomes": outs})
+        # schedules in which a process is killed (SIGKILL) inside or outside a session: Model/SessionDeath.v
+        dcases, dmeta, dviol = c04_mp.death_schedules(ctx, 210 if ctx.thorough else 35)
+        for mt in dmeta:
+            rep.case(key=f"death:{mt['scenario']}:{mt['kind']}:{mt['cut']}", sample=mt if mt["scenario"] in (0, 4) else None)
+            rep.count("death:" + mt["kind"])
+            if mt["kind"] == "writer":
+                rep.count("death:writer:" + ("nothing-of-the-session-on-disk" if mt["cut"] <= 0 else
+                                             "whole-session-on-disk" if mt["cut"] >= mt["session_bytes"] else
+                                             "torn-tail" if mt["shown"] < mt["puts"] else "complete-records-only"))
+        for sig, text in dviol[:6]:
+            rep.violate(sig, text, {"kind": "death", "seed": ctx.seed})
+        dbad = vlib.run_shards(ctx, rep, "c04death", c04_mp.DHEADER, "check_dcase", dcases, shard=40, case_type="dcase")
+        if dbad is None:
+            vlib.broken_obligation(rep, "corr_c04death", "a correspondence shard did not compile: " + str(rep.extra.get("shard_errors"))[-1500:], bool(rep.violations))
+        elif dbad:
+            mt = dmeta[dbad[0]]
+            rep.extra["death_mismatching"] = len(dbad)
+            if not dviol:
+                rep.violate("broken:corr_c04death", f"{len(dbad)} death schedule(s) end differently from Model/SessionDeath.v but the oracle finds no property "
+                            f"violation on them; first: {mt['labels']} -> {mt['outcomes']}", {"obligation": "corr_c04death", "first": mt}, no_input=True)
+        # two processes racing to create the same fresh library (the constructor's critical section, concretely)
+        for k in range(4 if ctx.thorough else 2):
+            cviol, raced = c04_mp.creation_race(ctx, k)
+            rep.case(key=f"creation-race:{k}")
+            rep.count("creation-race:looks-intercepted", raced)
+            for sig, text in cviol:
+                rep.violate(sig, text, {"kind": "creation-race"})
         # free-running schedules with injected delays, faults and path aliases
         rounds = 12 if ctx.thorough else 3
         for rd in range(rounds):
